@@ -2,6 +2,11 @@
      L tag:id:line:col tag:id:line:col ...    linearize (line = -1: sposNone)
      I <string over 's' 't'>                  indentLevel
      C item*   with  item ::= [ tag:id* | item* ]     wf_block, canonPiled, canonBraced
+     N <hex of a physical line>               inclLine  ->  indent sys <hex of text>
+     S L:indent:sys:handled:<hex text> ... O:len:tag[:A|N] ...
+                                              scan over these source lines; the abstract token recogniser
+                                              (munch) answers from the O entries in order
+                                              ->  tag:line:col:endline:endcol ...
    Conversions int <-> N only; all logic is the extracted model. *)
 open Linear
 
@@ -49,6 +54,14 @@ and parse_item ws =
 let string_of_atoms l =
   String.concat " " (List.map (fun (a, b) -> Printf.sprintf "%d:%d" (int_of_n a) (int_of_n b)) l)
 
+let chars_of_hex h =
+  if h = "-" then [] else
+  let n = String.length h / 2 in
+  List.init n (fun i -> n_of_int (int_of_string ("0x" ^ String.sub h (2 * i) 2)))
+let hex_of_chars l =
+  if l = [] then "-" else String.concat "" (List.map (fun c -> Printf.sprintf "%02x" (int_of_n c)) l)
+let rec nat_of_int n = if n <= 0 then O else S (nat_of_int (n - 1))
+
 let () =
   try
     while true do
@@ -65,6 +78,38 @@ let () =
         let (b, _) = parse_items ws in
         print_string ((if wf_block b then "WF" else "NOTWF") ^ " P " ^ string_of_atoms (canonPiled b)
                       ^ " B " ^ string_of_atoms (canonBraced b));
+        print_newline ()
+      end else if n >= 1 && line.[0] = 'N' then begin
+        let h = String.trim (String.sub line 1 (n - 1)) in
+        let sl = inclLine (chars_of_hex h) in
+        Printf.printf "%d %d %s\n" (int_of_n sl.slIndent) (if sl.slSys then 1 else 0) (hex_of_chars sl.slText)
+      end else if n >= 1 && line.[0] = 'S' then begin
+        let ws = List.filter (fun s -> s <> "") (String.split_on_char ' ' (String.sub line 1 (n - 1))) in
+        let lines = ref [] and oracle = ref [] in
+        List.iter (fun w ->
+          match String.split_on_char ':' w with
+          | ["L"; i; sy; h; t] ->
+              lines := { slIndent = n_of_int (int_of_string i); slSys = (sy = "1"); slHandled = (h = "1");
+                         slText = chars_of_hex t } :: !lines
+          | ["O"; l; t] -> oracle := (nat_of_int (int_of_string l), n_of_int (int_of_string t), "-") :: !oracle
+          | ["O"; l; t; r] -> oracle := (nat_of_int (int_of_string l), n_of_int (int_of_string t), r) :: !oracle
+          | _ -> failwith ("bad scan word " ^ w)) ws;
+        let q = ref (List.rev !oracle) in
+        (* the oracle also checks what the real token implies about the float state the model is in:
+           A = the real scanner was in AnyFloat (it read `.digits` as a float), N = it was not *)
+        let fsbad = ref false in
+        let munch fs _ = match !q with
+          | (l, t, r) :: rest ->
+              q := rest;
+              if (r = "A" && int_of_n fs <> 0) || (r = "N" && int_of_n fs = 0) then fsbad := true;
+              (l, t)
+          | [] -> (S O, N0) in
+        let toks = scan munch (List.rev !lines) in
+        print_string (String.concat " " ("OK" :: List.map (fun t ->
+          Printf.sprintf "%d:%d:%d:%d:%d" (int_of_n t.stTag) (int_of_n t.stLine) (int_of_n t.stCol)
+            (int_of_n t.stELine) (int_of_n t.stECol)) toks));
+        print_string (if !fsbad then " FS" else "");
+        print_string (if !q = [] then "" else " LEFT");
         print_newline ()
       end else if n >= 1 && line.[0] = 'I' then begin
         let ws = ref [] in
